@@ -3,9 +3,42 @@
 //! `Scheme::get_field` used by the `set_field_value_from_name` obligations.
 use super::super::*;
 
-/// A scheme with the given (name, type) optional fields.  Like `scheme_of`, it
-/// fills `SchemeBuilder.fields` directly (the `HashMap` name index stays empty:
-/// hashbrown is out of CBMC's reach).  Constructs a value; not a model.
+/// Storage for two field definitions ("a": ta, "b": tb, both optional), to be kept in a LOCAL of
+/// the harness (see `builder_over`).
+pub(crate) struct FieldStore2([FieldDefinition; 2]);
+
+pub(crate) fn field_store2(ta: Type, tb: Type) -> FieldStore2 {
+    FieldStore2([
+        FieldDefinition {
+            name: Arc::from("a"),
+            ty: ta,
+            optional: true,
+        },
+        FieldDefinition {
+            name: Arc::from("b"),
+            ty: tb,
+            optional: true,
+        },
+    ])
+}
+
+/// A builder whose `fields` vector is backed by caller-owned TYPED storage (a local array) instead
+/// of a heap buffer, so that CBMC folds the field types read back from it (a heap buffer is an
+/// untyped byte array to CBMC: `field.get_type() == value.get_type()` is then not decided during
+/// symbolic execution and both outcomes of every type check are explored).  Like `scheme_of`, it
+/// fills `SchemeBuilder.fields` directly (the `HashMap` name index stays empty: hashbrown is out of
+/// CBMC's reach).  The scheme built from it must be `mem::forget`-ed before the storage goes out of
+/// scope (the vector is never freed or grown).  Constructs a value; not a model.
+pub(crate) unsafe fn builder_over(store: *mut FieldStore2) -> SchemeBuilder {
+    let mut b = SchemeBuilder::new();
+    let v = unsafe { Vec::from_raw_parts((*store).0.as_mut_ptr(), 2, 2) };
+    let old = std::mem::replace(&mut b.fields, v);
+    std::mem::forget(old);
+    b
+}
+
+/// A scheme with the given (name, type) optional fields (heap-backed; used where field types are
+/// not read).
 pub(crate) fn scheme_named(fields: &[(&str, Type)]) -> Scheme {
     let mut b = SchemeBuilder::new();
     let mut i = 0;
